@@ -16,8 +16,8 @@ def run(chk):
     tc.standard_plan(chk, "C03", "nt_C03")
     chk.assumptions.append("ids are compared literally for the simple trackers and modulo renaming for the batch trackers")
     # VisualSORT with the own-area options on (another code path before the epoch is advanced), lifecycle calls included
-    r, c = tc.generate_visual(chk, "v-own-lifecycle", depth=6, Sim=8, OwnUse=50, OwnCollect=50, LifecycleOps=True, MaxIdle=1,
-                              simulate={"num": 12 if chk.tier == "quick" else 150, "depth": 7})
+    r, c = tc.generate_visual(chk, "v-own-lifecycle", depth=4, OwnUse=50, OwnCollect=50, LifecycleOps=True, MaxIdle=1,
+                              MaxDets=1, Slots={1}, Confs={900}, Feats={1}, Quals={90})     # exhaustive: empty frames are frequent
     for kind in ("visual", "batchvisual"):
         tc.replay_visual(chk, "v-own-lifecycle", r, c, kind, 2, "C03", "nt_C03")
     # R2: random free-world histories (moving, crossing, disappearing objects; lifecycle calls interleaved)
